@@ -437,8 +437,11 @@ pub struct ConfigRun {
 }
 
 /// Run one emitter against one collector: emit every event (ids `base_id + index`), flush, read the log.
-pub fn run_config(cfg: &Config, base_id: u64, events: &[EventSpec]) -> ConfigRun {
-    let c = Collector::start();
+pub fn run_config(cfg: &Config, base_id: u64, events: &[EventSpec]) -> Result<ConfigRun, String> {
+    let c = Collector::try_start()?;
+    if [cfg.logs, cfg.traces, cfg.metrics].into_iter().flatten().any(|w| matches!(w, Wire::GrpcProto | Wire::GrpcProtoGzip)) {
+        c.ensure_grpc()?;
+    }
     let otlp = build_otlp(&c, cfg);
     let mut deltas = Vec::with_capacity(events.len());
     let mut flush_ok = true;
@@ -454,9 +457,11 @@ pub fn run_config(cfg: &Config, base_id: u64, events: &[EventSpec]) -> ConfigRun
     }
     flush_ok &= otlp.blocking_flush(Duration::from_secs(60));
     let discarded_total = otlp.metric_source().event_discarded();
-    drop(otlp);
     let log = c.requests();
+    // the collector goes first: closing from the server side keeps the client's ephemeral ports out
+    // of TIME_WAIT (tens of thousands of cases per run)
     c.shutdown();
+    drop(otlp);
     if std::env::var_os("VERIF_DEBUG").is_some() {
         for r in &log {
             eprintln!(
@@ -516,7 +521,7 @@ pub fn run_config(cfg: &Config, base_id: u64, events: &[EventSpec]) -> ConfigRun
             discard_delta: deltas[i],
         })
         .collect();
-    ConfigRun { obs, stray, flush_ok, discarded_total, decode_errors, wrong_endpoint }
+    Ok(ConfigRun { obs, stray, flush_ok, discarded_total, decode_errors, wrong_endpoint })
 }
 
 fn route_of(s: Signal) -> Route {
